@@ -321,9 +321,11 @@ class PymbolicToASTMapper(CachedMapper):
 
         if isinstance(expr, bool):
             return ast.NameConstant(expr)
-        elif isinstance(expr, (int, float)) and expr < 0:
+        elif isinstance(expr, (int, float)) and (
+                expr < 0 or (expr == 0 and str(expr).startswith("-"))):
             # Python's own ASTs have no negative constants: ast.unparse
-            # prints Constant(-3)**a as -3 ** a.
+            # prints Constant(-3)**a as -3 ** a (and Constant(-0.0)**a
+            # as -0.0 ** a).
             return ast.UnaryOp(ast.USub(), ast.Constant(-expr, None))
         elif isinstance(expr, complex) and repr(expr).startswith("-"):
             # Likewise for a negative purely imaginary constant (-0.5j):
